@@ -10,7 +10,8 @@ CTX = {}
 
 def gen_case(rng):
     return {'kind': 'schemaleak', 'order': rng.choice(['plain-first', 'over-first']),
-            'how': rng.choice(['_schema', '_condition', 'merge_overrides', '_schema_default', 'nested_glob']),
+            'how': rng.choice(['_schema', '_condition', 'merge_overrides', '_schema_default', 'nested_glob',
+                               'override_after_run']),
             'glob_child': rng.random() < 0.7, 'ticks': rng.choice([1, 2])}
 
 
@@ -19,6 +20,8 @@ def corpus():
             {'kind': 'schemaleak', 'order': 'over-first', 'how': '_schema_default', 'glob_child': False, 'ticks': 1},
             {'kind': 'schemaleak', 'order': 'plain-first', 'how': '_schema_default', 'glob_child': True, 'ticks': 1},
             {'kind': 'schemaleak', 'order': 'plain-first', 'how': '_condition', 'glob_child': True, 'ticks': 1},
+            # the same process objects loaded into a second engine after one of them was given an override
+            {'kind': 'schemaleak', 'order': 'plain-first', 'how': 'override_after_run', 'glob_child': True, 'ticks': 1},
             # F33: two glob viewers with nested sub-schemas on one store
             {'kind': 'schemaleak', 'order': 'plain-first', 'how': 'nested_glob', 'glob_child': True, 'ticks': 1}]
 
@@ -60,13 +63,22 @@ def run_impl(case):
             extra_a, extra_g = ['enabled'], []
         else:
             over = Shared({'key': key, 'who': 'over'})
-            over.merge_overrides({'a': {'y': {'_default': 10}}})
+            if case['how'] != 'override_after_run':
+                over.merge_overrides({'a': {'y': {'_default': 10}}})
             extra_a, extra_g = ['y'], []
         plain = Shared({'key': key, 'who': 'plain'})
         procs = {'plain': plain, 'over': over} if case['order'] == 'plain-first' else {'over': over, 'plain': plain}
         # the two instances are wired to different nodes for port a
         topology = {name: {'a': ('A',) if name == 'over' else ('A2',), 'g': ('G',)} for name in procs}
         init = {'G': {'c0': {'x': 1}}} if case['glob_child'] else {}
+        if case['how'] == 'override_after_run':
+            # a first engine runs the composite; then one process gets an override; a second engine built from the
+            # same process objects must hand each process what it declares *now*
+            first = Engine(processes=procs, topology=topology, initial_state=init, emitter={'type': 'null'},
+                           display_info=False, progress_bar=False)
+            first.update(1)
+            del log[:]
+            over.merge_overrides({'a': {'y': {'_default': 10}}})
         eng = Engine(processes=procs, topology=topology, initial_state=init, emitter={'type': 'null'},
                      display_info=False, progress_bar=False)
         eng.update(case['ticks'])
